@@ -15,6 +15,11 @@ Proof. vm_compute. reflexivity. Qed.
 Lemma mergedir_shared_writes_ok : shared_writes_ok mergedir_shared_writes = true.
 Proof. vm_compute. reflexivity. Qed.
 
+(* no goroutine MergeDir starts assigns to a variable it captures (the parser literal runs ParseWorkers times at once):
+   the goroutines communicate through the channels, the once-seeded accumulator and the errgroup only *)
+Lemma mergedir_no_captured_writes : mergedir_captured_writes = [].
+Proof. vm_compute. reflexivity. Qed.
+
 Lemma walkdir_loop_complete : loop_complete walkdir_early_returns = true.
 Proof. vm_compute. reflexivity. Qed.
 
